@@ -270,7 +270,7 @@ func EnumerateDecisions(p *Program, fn *ssa.Function, opts DecisionOpts) (paths 
 			walk(to, b, st)
 			return
 		}
-		if opts.IterateAt != nil && opts.ExitOutcome != "" && !loopOf[opts.IterateAt][b] {
+		if opts.IterateAt != nil && opts.ExitOutcome != "" && !loopOf[opts.IterateAt][b] && !returnsAtOnce(b) {
 			pos := "-"
 			if from != nil && len(from.Instrs) > 0 {
 				pos = p.Pos(from.Instrs[len(from.Instrs)-1].Pos())
@@ -347,16 +347,8 @@ func EnumerateDecisions(p *Program, fn *ssa.Function, opts DecisionOpts) (paths 
 		}
 		switch last := b.Instrs[len(b.Instrs)-1].(type) {
 		case *ssa.If:
-			// constant condition after phi resolution?
-			cv := StripConv(last.Cond)
-			if ph, ok := cv.(*ssa.Phi); ok {
-				if _, named := phiName[ph]; !named {
-					if e, ok := st.phiEdge[ph]; ok {
-						cv = e
-					}
-				}
-			}
-			if bv, ok := ConstBool(cv); ok {
+			// constant condition after phi resolution (through chains of merges and negations)?
+			if bv, ok := constCond(canon, last.Cond, 0); ok {
 				k := 0
 				if !bv {
 					k = 1
@@ -465,6 +457,48 @@ func EnumerateDecisions(p *Program, fn *ssa.Function, opts DecisionOpts) (paths 
 		return paths, atoms, fmt.Errorf("more than %d decision paths in %s", opts.MaxPaths, fn)
 	}
 	return paths, atoms, nil
+}
+
+// constCond evaluates a branch condition that is a constant on the current path.
+func constCond(c *Canon, v ssa.Value, depth int) (bool, bool) {
+	if depth > 16 {
+		return false, false
+	}
+	v = c.Resolve(v)
+	if bv, ok := ConstBool(v); ok {
+		return bv, true
+	}
+	if u, ok := v.(*ssa.UnOp); ok && u.Op.String() == "!" {
+		bv, ok := constCond(c, u.X, depth+1)
+		return !bv, ok
+	}
+	return false, false
+}
+
+// returnsAtOnce: the block only merges values and returns (an early `return` out of a loop, as
+// opposed to a `break` that continues behind the loop).
+func returnsAtOnce(b *ssa.BasicBlock) bool {
+	for hops := 0; hops < 8; hops++ {
+		next := (*ssa.BasicBlock)(nil)
+		for i, in := range b.Instrs {
+			switch in.(type) {
+			case *ssa.Phi:
+			case *ssa.Return:
+				return i == len(b.Instrs)-1
+			case *ssa.Jump:
+				if i == len(b.Instrs)-1 && len(b.Succs) == 1 {
+					next = b.Succs[0]
+				}
+			default:
+				return false
+			}
+		}
+		if next == nil {
+			return false
+		}
+		b = next
+	}
+	return false
 }
 
 // SubstDecidedStates replaces the loop-state variables (state0, state1, ...) whose value was
